@@ -26,15 +26,109 @@ theorem errors_contained_run (c : Consts) (env : Env) (o : Nat → Outcome) (n :
     run c (env.setOut o) n σ [] = run c env n σ [] :=
   run_setOut c env o n σ []
 
+/-- **startup_writes_call_no_read.**  What `writeInitParams` calls for module `i` (in the start-up round and behind it),
+for every environment — whatever the write functions do, common write handlers that take further entries out of
+`writeDict` included — and every state: only write functions of start values that were in its `writeDict`, in that order
+(a sublist: an entry somebody has taken in the mean time is passed over) — no read function of any parameter, polled or
+not, and no poll function; the calls do not depend on how any of them ends; afterwards nothing is left to write for that
+module (a second `writeInitParams` calls nothing) and the start values of the other modules are untouched. -/
+theorem startup_writes_call_no_read (env : Env) (o : Nat → Outcome) (σ : PollState) (i : Nat) :
+    List.Sublist ((writeInit env σ i []).evs.map evKey) ((σ.pending i).map (fun p => (i, Fn.write p))) ∧
+    (∀ e ∈ (writeInit env σ i []).evs, isRead e.f = false ∧ e.f ≠ Fn.doPoll) ∧
+    writeInit (env.setOut o) σ i [] = writeInit env σ i [] ∧
+    (writeInit env σ i []).σ.pending i = [] ∧
+    (writeInit env (writeInit env σ i []).σ i []).evs = [] ∧
+    ∀ j, j ≠ i → (writeInit env σ i []).σ.pending j = σ.pending j := by
+  obtain ⟨hp, hother⟩ := writeInit_pending env σ i []
+  refine ⟨?_, ?_, writeInit_setOut env o σ i [], hp, ?_, hother⟩
+  · obtain ⟨l, h1, h2⟩ := writeInit_calls env σ i []
+    rw [h1]; simpa using h2
+  · intro e he
+    rcases writeInit_events env σ i [] e he with h | ⟨_, p, hf, _⟩
+    · cases h
+    · rw [hf]; exact ⟨rfl, by simp⟩
+  · obtain ⟨l, h1, h2⟩ := writeInit_calls env (writeInit env σ i []).σ i []
+    rw [hp] at h2
+    have : l = [] := by simpa using h2
+    rw [this] at h1
+    simpa using h1
+
+/-- **startup_writes_all_written.**  When no write function takes further entries out of `writeDict` (no common write
+handlers), `writeInitParams` calls the write function of EVERY start value of the module, in the order of `writeDict`,
+each exactly once. -/
+theorem startup_writes_all_written (env : Env) (hn : NoTakes env) (σ : PollState) (i : Nat) (hnd : (σ.pending i).Nodup) :
+    (writeInit env σ i []).evs.map evKey = (σ.pending i).map (fun p => (i, Fn.write p)) := by
+  simpa using writeInit_calls_exact env hn σ i hnd []
+
+/-- what module initialisation enters into `writeDict`: exactly the parameters with a given value, each once -/
+theorem givenIdx_mem (gs : List Bool) : ∀ (i p : Nat), p ∈ givenIdx i gs ↔ i ≤ p ∧ gs[p - i]? = some true := by
+  induction gs with
+  | nil => intro i p; simp [givenIdx]
+  | cons g gs ih =>
+    intro i p
+    simp only [givenIdx, List.mem_append, ih]
+    constructor
+    · rintro (h | ⟨h1, h2⟩)
+      · cases g
+        · simp at h
+        · simp only [if_true, List.mem_singleton] at h; subst h; simp
+      · refine ⟨by omega, ?_⟩
+        have : p - i = (p - (i + 1)) + 1 := by omega
+        rw [this, List.getElem?_cons_succ]; exact h2
+    · rintro ⟨h1, h2⟩
+      by_cases hp : p = i
+      · subst hp
+        simp only [Nat.sub_self, List.getElem?_cons_zero, Option.some.injEq] at h2
+        subst h2; exact Or.inl (by simp)
+      · have : p - i = (p - (i + 1)) + 1 := by omega
+        rw [this, List.getElem?_cons_succ] at h2
+        exact Or.inr ⟨by omega, h2⟩
+
+theorem givenIdx_nodup (gs : List Bool) : ∀ i, (givenIdx i gs).Nodup := by
+  induction gs with
+  | nil => intro i; simp [givenIdx]
+  | cons g gs ih =>
+    intro i
+    simp only [givenIdx]
+    refine List.nodup_append.2 ⟨by cases g <;> simp, ih (i + 1), ?_⟩
+    intro a ha b hb
+    have hb' := ((givenIdx_mem gs (i + 1) b).1 hb).1
+    cases g
+    · simp at ha
+    · simp only [if_true, List.mem_singleton] at ha; omega
+
+/-- **start_values_written_once.**  A thread started with the `writeDict`s module initialisation leaves (`givenIdx`: the
+parameters whose value is given, in parameter order), in an environment without common write handlers: the first
+`writeInitParams` of module `i` calls the write function of every given start value, in parameter order, each exactly
+once (and nothing else — `startup_writes_call_no_read`). -/
+theorem start_values_written_once (env : Env) (hn : NoTakes env) (clock : Nat) (mods : List Mod) (stamp : Nat → Nat → Nat)
+    (given : Nat → List Bool) (i : Nat) :
+    (writeInit env (startState clock mods stamp (fun m => givenIdx 0 (given m))) i []).evs.map evKey =
+      (givenIdx 0 (given i)).map (fun p => (i, Fn.write p)) :=
+  startup_writes_all_written env hn _ i (givenIdx_nodup _ 0)
+
+/-- the table fact the model's `writeParams` rests on (re-extracted from the source of `Module.writeInitParams` on every
+run): the only methods of the module it looks up are `write_<pname>`, and it calls no method of the module directly —
+no `read_<pname>` is reached from there -/
+theorem writeInitParams_looks_up_write_functions_only :
+    Generated.C13.writeInitParamsLookups = ["write_"] ∧ Generated.C13.writeInitParamsSelfCalls = [] := by
+  decide +kernel
+
 /-- **late_writes_contained.**  The `writeInitParams` calls behind the start-up round (repaired code: the configured
 values a round broken off by a communication failure had skipped): the successor state and the call list do not depend
 on any outcome — whatever a late write raises (SECoP / silent / communication error, arbitrary exception), the thread
-goes on — and every module of the thread, polled or not, gets exactly one such call, in list order. -/
+goes on; every call is a write function of a start value that was still to be written, of a module of the thread — no
+read function is called; and afterwards no module of the thread, polled or not, has anything left to write. -/
 theorem late_writes_contained (env : Env) (o : Nat → Outcome) (is : List Nat) (σ : PollState) (evs : List Event) :
     lateAll (env.setOut o) is σ evs = lateAll env is σ evs ∧
-    (lateAll env is σ []).evs.map (fun e => (e.m, e.f)) = is.map (fun i => (i, Fn.write)) := by
-  refine ⟨lateAll_setOut env o is σ evs, ?_⟩
-  simpa using lateAll_calls env is σ []
+    (∀ e ∈ (lateAll env is σ []).evs, e.m ∈ is ∧ ∃ p, e.f = Fn.write p ∧ p ∈ σ.pending e.m) ∧
+    ∀ j ∈ is, (lateAll env is σ evs).σ.pending j = [] := by
+  obtain ⟨a, _, _⟩ := lateAll_events env is σ []
+  obtain ⟨_, _, c⟩ := lateAll_events env is σ evs
+  refine ⟨lateAll_setOut env o is σ evs, fun e he => ?_, c⟩
+  rcases a e he with h | h
+  · cases h
+  · exact h
 
 /-- everything behind the start-up round — the late writes and any number of turns — is independent of all outcomes:
 from the state the round leaves, no failure of any kind changes what the thread does next (only a communication failure
@@ -75,10 +169,11 @@ theorem not_due_not_polled (c : Consts) (env : Env) (hq : Quiet env) (D E : Nat)
 
 /-! ## parameters that are not polled -/
 
-/-- **nopoll_never_read.**  In every trace of the thread body (start-up round and any number of turns), for every
-environment: each `read_p` call is for a parameter listed as polled of a module with polling enabled, each
-`doPoll` is of a module with polling enabled — the clause `NoPollNeverRead` of the specification, the one the
-monitor evaluates on implementation traces. -/
+/-- **nopoll_never_read.**  In every trace of the thread body — the start-up round with everything `writeInitParams`
+calls, the late writes, and any number of turns — for every environment and whatever start values are to be written:
+each `read_p` call is for a parameter listed as polled of a module with polling enabled, each `doPoll` is of a module
+with polling enabled — the clause `NoPollNeverRead` of the specification, the one the monitor evaluates on
+implementation traces (whose events are every function of a module the poll thread's own code calls). -/
 theorem nopoll_never_read (c : Consts) (env : Env) (n : Nat) (σ : PollState) (h : σ.toPoll = none)
     (loopStart tEnd eps : Nat) :
     NoPollNeverRead (traceOf σ (thread c env n σ).evs loopStart tEnd eps) := by
@@ -104,7 +199,7 @@ theorem nopoll_never_read (c : Consts) (env : Env) (n : Nat) (σ : PollState) (h
   | init =>
     have : mm < (statics σ).length := hv
     simpa [traceOf, statics] using this
-  | write =>
+  | write q =>
     have : mm < (statics σ).length := hv
     simpa [traceOf, statics] using this
 
@@ -126,6 +221,60 @@ theorem polled_is_mayPoll (ds : List PollFlags.Decl) : ∀ i, PollFlags.polledId
     by_cases h : MarkedNotPolled d
     · rw [if_pos h, if_neg (by rw [poll_flags_mark]; exact fun hn => hn h)]
     · rw [if_neg h, if_pos ((poll_flags_mark d).2 h)]
+
+/-- which positions `mayPoll` lists: those whose declaration is not marked as not polled -/
+theorem mem_mayPoll (ds : List PollFlags.Decl) : ∀ (i p : Nat),
+    p ∈ mayPoll i ds ↔ ∃ d, i ≤ p ∧ ds[p - i]? = some d ∧ ¬ MarkedNotPolled d := by
+  induction ds with
+  | nil => intro i p; simp [mayPoll]
+  | cons d ds ih =>
+    intro i p
+    simp only [mayPoll, List.mem_append, ih]
+    constructor
+    · rintro (h | ⟨d', h1, h2, h3⟩)
+      · by_cases hm : MarkedNotPolled d
+        · rw [if_pos hm] at h; cases h
+        · rw [if_neg hm] at h
+          simp only [List.mem_singleton] at h; subst h
+          exact ⟨d, Nat.le_refl _, by simp, hm⟩
+      · refine ⟨d', by omega, ?_, h3⟩
+        have : p - i = (p - (i + 1)) + 1 := by omega
+        rw [this, List.getElem?_cons_succ]; exact h2
+    · rintro ⟨d', h1, h2, h3⟩
+      by_cases hp : p = i
+      · subst hp
+        simp only [Nat.sub_self, List.getElem?_cons_zero, Option.some.injEq] at h2
+        subst h2
+        exact Or.inl (by rw [if_neg h3]; exact List.mem_singleton.2 rfl)
+      · have : p - i = (p - (i + 1)) + 1 := by omega
+        rw [this, List.getElem?_cons_succ] at h2
+        exact Or.inr ⟨d', by omega, h2, h3⟩
+
+/-- **marked_not_polled_never_read.**  The clause of the statement in its own words, end to end: a thread started
+(`startState`, `startMod`) for modules given by how their classes DECLARE the read functions (`decl`: polling enabled, slow
+interval, the declarations in parameter order, poll interval), with the lists of polled parameters collected as the real
+thread collects them (`PollFlags.polledIdx`, a module without polling has none) — in every environment, for any number of
+turns, whatever start values are written: every read function the thread calls, in the loop, in the start-up round or
+inside `writeInitParams`, belongs to a module with polling enabled and to a parameter that is NOT marked as not polled. -/
+theorem marked_not_polled_never_read (c : Consts) (env : Env) (n clock : Nat) (stamp : Nat → Nat → Nat)
+    (pending : Nat → List Nat) (decl : List (Bool × Nat × List PollFlags.Decl × Nat)) :
+    let σ := startState clock
+      (decl.map fun d => startMod d.1 d.2.1 (if d.1 then PollFlags.polledIdx 0 d.2.2.1 else []) d.2.2.2) stamp pending
+    ∀ e ∈ (thread c env n σ).evs, ∀ p, e.f = Fn.read p →
+      ∃ d dd, decl[e.m]? = some d ∧ d.1 = true ∧ d.2.2.1[p]? = some dd ∧ ¬ MarkedNotPolled dd := by
+  intro σ e he p hf
+  have hv := thread_ok c env n σ rfl e he
+  unfold ValidEvent at hv
+  rw [hf] at hv
+  obtain ⟨s, hs, h1, h2⟩ := hv
+  simp only [σ, startState, statics, List.getElem?_map, Option.map_eq_some_iff, List.map_map] at hs
+  obtain ⟨d, hd, rfl⟩ := hs
+  simp only [Function.comp, static, startMod] at h1 h2
+  rw [h1] at h2
+  simp only [if_true] at h2
+  rw [polled_is_mayPoll, mem_mayPoll] at h2
+  obtain ⟨dd, _, h3, h4⟩ := h2
+  exact ⟨d, dd, hd, h1, by simpa using h3, h4⟩
 
 /-! ## interval changes -/
 
@@ -531,9 +680,9 @@ lower limit), in every quiet bounded environment and for any number of turns: th
 holds with one sweep `= sweepBound n D E`, and every polled parameter is refreshed within `slowBound` — no further
 hypothesis about the state. -/
 theorem bounds_from_thread_start (c : Consts) (env : Env) (hq : Quiet env) (D E : Nat) (hb : Bounded env D E)
-    (clock : Nat) (decl : List (Bool × Nat × List Nat × Nat)) (stamp : Nat → Nat → Nat)
+    (clock : Nat) (decl : List (Bool × Nat × List Nat × Nat)) (stamp : Nat → Nat → Nat) (pending : Nat → List Nat)
     (hiv : ∀ d ∈ decl, d.2.2.2 < clock) (hslow : ∀ d ∈ decl, 0 < d.2.1) (k : Nat) :
-    let σ := startState clock (decl.map fun d => startMod d.1 d.2.1 d.2.2.1 d.2.2.2) stamp
+    let σ := startState clock (decl.map fun d => startMod d.1 d.2.1 d.2.2.1 d.2.2.2) stamp pending
     MainGapBoundS (sweepBound σ.mods.length D E)
       (traceOf σ (thread c env k σ).evs (prologue c env σ).σ.clock (thread c env k σ).σ.clock E) ∧
     ∀ (i p : Nat) (m : Mod), σ.mods[i]? = some m → m.enabled = true → p ∈ m.polled →
@@ -664,10 +813,10 @@ example : ¬ MainGapBoundS 0
 /-- `bounds_from_thread_start` on a thread of two polled modules and one that is only written, started at clock 1000 -/
 example :
     let σ := startState 1000 ([(true, 40, [0, 1], 10), (true, 60, [2], 25), (false, 50, [], 7)].map
-      fun d => startMod d.1 d.2.1 d.2.2.1 d.2.2.2) (fun _ _ => 0)
+      fun d => startMod d.1 d.2.1 d.2.2.1 d.2.2.2) (fun _ _ => 0) (fun i => if i = 2 then [0, 4] else [3])
     MainGapBoundS (sweepBound σ.mods.length 3 1)
       (traceOf σ (thread exConsts exEnv 30 σ).evs (prologue exConsts exEnv σ).σ.clock (thread exConsts exEnv 30 σ).σ.clock 1) :=
-  (bounds_from_thread_start exConsts exEnv exEnv_quiet 3 1 exEnv_bounded 1000 _ (fun _ _ => 0)
+  (bounds_from_thread_start exConsts exEnv exEnv_quiet 3 1 exEnv_bounded 1000 _ (fun _ _ => 0) _
     (by decide) (by decide) 30).1
 
 /-- `interval_change_takes_effect` on the example thread: after 7 turns another thread switches fast polling on for
@@ -701,15 +850,54 @@ example : ∃ t, startsOf (turn exConsts exEnv (prologue exConsts exEnv exState)
   due_polled_this_turn exConsts exEnv exEnv_quiet 3 1 exEnv_bounded _ 1 (exMod 25 60 [2]) (by decide) rfl (by decide)
 
 /-- the late path on the example thread: `initialReads` of module 0 ends with a communication error (call 1) and every
-other call — the `writeInitParams` before it included — with an arbitrary exception: the round is broken off at once,
-then `writeInitParams` of all three modules is called (the one that is only written included), and the loop polls as
-if nothing had happened -/
+other call — the write of its start value before it included — with an arbitrary exception: the round is broken off at
+once, then `writeInitParams` of all three modules is called: nothing is left for module 0, module 1 has no start values,
+the two start values of the module that is only written are written now; the loop polls as if nothing had happened -/
 example :
     (prologue exConsts (exEnv.setOut (fun k => if k = 1 then .comm else .exc)) exState).aborted = true ∧
-    (prologue exConsts (exEnv.setOut (fun k => if k = 1 then .comm else .exc)) exState).evs.map (fun e => (e.m, e.f)) =
-      [(0, .write), (0, .init), (0, .write), (1, .write), (2, .write)] ∧
+    (prologue exConsts (exEnv.setOut (fun k => if k = 1 then .comm else .exc)) exState).evs.map evKey =
+      [(0, .write 3), (0, .init), (2, .write 0), (2, .write 4)] ∧
     (startsOf (thread exConsts (exEnv.setOut (fun k => if k = 1 then .comm else .exc)) 30 exState).evs 0).length ≥ 5 := by
   decide +kernel
+
+/-- the regular path: every start value is written in the round, before `initialReads` of its module; the late
+`writeInitParams` calls find nothing left -/
+example : ((prologue exConsts exEnv exState).evs.map evKey).take 6 =
+      [(0, .write 3), (0, .init), (1, .init), (2, .write 0), (2, .write 4), (2, .init)] ∧
+    (∀ i, i < 3 → (prologue exConsts exEnv exState).σ.pending i = []) ∧
+    ((prologue exConsts exEnv exState).evs.filter (fun e => match e.f with | .write _ => true | _ => false)).length = 3 := by
+  decide +kernel
+
+/-- `startup_writes_call_no_read` on it: `writeInitParams` of the module that is only written makes two calls, both write
+functions, and leaves nothing; parameter 3 of module 0 — which has a start value but is not polled — is written, never read -/
+example : (writeInit exEnv exState 2 []).evs.map evKey = [(2, .write 0), (2, .write 4)] ∧
+    (writeInit exEnv exState 2 []).σ.pending 2 = [] ∧ (writeInit exEnv exState 2 []).σ.pending 0 = [3] ∧
+    readsOf (thread exConsts exEnv 30 exState).evs 0 3 = [] :=
+  ⟨startup_writes_all_written exEnv (fun _ => rfl) exState 2 (by decide), (startup_writes_call_no_read exEnv exEnv.out exState 2).2.2.2.1,
+   (startup_writes_call_no_read exEnv exEnv.out exState 2).2.2.2.2.2 0 (by decide), by decide +kernel⟩
+
+/-- `start_values_written_once`: parameters 1 and 3 of module 0 are given -/
+example : (writeInit exEnv (startState 1000 exState.mods (fun _ _ => 0) (fun m => givenIdx 0 (if m = 0 then [false, true, false, true] else []))) 0 []).evs.map evKey =
+    [(0, .write 1), (0, .write 3)] :=
+  start_values_written_once exEnv (fun _ => rfl) 1000 exState.mods (fun _ _ => 0) (fun m => if m = 0 then [false, true, false, true] else []) 0
+
+/-- a common write handler: the write function of parameter 0 of the module that is only written also takes parameter 4
+out of `writeDict` (it has written both): `writeInitParams` then passes parameter 4 over — one call, nothing left -/
+example : (writeInit { exEnv with takes := fun k => if k = 0 then [4] else [] } exState 2 []).evs.map evKey = [(2, .write 0)] ∧
+    (writeInit { exEnv with takes := fun k => if k = 0 then [4] else [] } exState 2 []).σ.pending 2 = [] := by
+  decide +kernel
+
+/-- `late_writes_contained` on the state the broken-off round leaves: the two start values of the third module -/
+example : (lateAll exEnv [0, 1, 2] (startupRound exConsts (exEnv.setOut (fun k => if k = 1 then .comm else .exc)) exState).σ []).evs.map evKey =
+    [(2, .write 0), (2, .write 4)] ∧
+    ∀ j ∈ [0, 1, 2], (lateAll exEnv [0, 1, 2]
+      (startupRound exConsts (exEnv.setOut (fun k => if k = 1 then .comm else .exc)) exState).σ []).σ.pending j = [] :=
+  ⟨by decide +kernel, (late_writes_contained exEnv exEnv.out [0, 1, 2] _ []).2.2⟩
+
+/-- a trace in which the poll thread reads a parameter marked as not polled right after writing its start value
+(inside `writeInitParams`) is flagged by the monitor, wherever in the trace it is -/
+example : noPollB (traceOf exState [⟨1000, 0, .write 3, 3⟩, ⟨1003, 0, .read 3, 3⟩, ⟨1006, 0, .init, 3⟩] 1010 2000 1) = false ∧
+    noPollB (traceOf exState [⟨1000, 0, .write 3, 3⟩, ⟨1003, 0, .init, 3⟩] 1010 2000 1) = true := by decide
 
 /-- `nopoll_never_read` on it, and the monitor agrees -/
 example : noPollB (traceOf exState (thread exConsts exEnv 30 exState).evs 1000 2000 1) = true :=
@@ -717,6 +905,18 @@ example : noPollB (traceOf exState (thread exConsts exEnv 30 exState).evs 1000 2
 
 /-- the monitor is not trivially true: a read of a parameter that is not polled is flagged -/
 example : noPollB (traceOf exState [⟨1001, 0, .read 5, 1⟩] 1000 2000 1) = false := by decide
+
+/-- `marked_not_polled_never_read` on a thread of one polled module declaring `read_0` plain, `read_1` with `@nopoll`, parameter 2
+without read function, parameter 3 a read handler key with `nopoll` outside, all four with start values: parameters 0 is
+read (several times), 1, 2 and 3 are written but never read -/
+example :
+    let σ := startState 1000 ([(true, 40, [⟨.plain, false, false⟩, ⟨.plain, true, false⟩, ⟨.none, false, false⟩,
+      ⟨.handler, false, true⟩], 10)].map fun d => startMod d.1 d.2.1 (if d.1 then PollFlags.polledIdx 0 d.2.2.1 else []) d.2.2.2)
+      (fun _ _ => 0) (fun _ => [0, 1, 2, 3])
+    (readsOf (thread exConsts exEnv 30 σ).evs 0 0).length ≥ 3 ∧
+    (∀ p ∈ [1, 2, 3], readsOf (thread exConsts exEnv 30 σ).evs 0 p = []) ∧
+    ((thread exConsts exEnv 30 σ).evs.map evKey).take 5 = [(0, .write 0), (0, .write 1), (0, .write 2), (0, .write 3), (0, .init)] := by
+  decide +kernel
 
 /-- `interval_change_next_wakeup`: switching fast polling on (interval 2) sets the event and the new interval -/
 example : (applyExt exState (.setFastPoll 0 true 2)).trig = true ∧
